@@ -7,11 +7,15 @@ VARIABLES k
 
 Rec == ndJsonDeserialize(IOEnv.BATCH)
 
+\* long documents (thousands of pairs) are recorded with acceptance and the number of pairs only
+RECURSIVE NPairs(_)
+NPairs(q) == IF q = <<>> THEN 0 ELSE 1 + NPairs(q[1].c) + NPairs(Tail(q))
+
 CheckRec(rec) ==
   LET rfc == JsonText(rec.inp) IN
   IF /\ rec.got.panic = ""
      /\ rec.got.ok = rfc.ok
-     /\ (rfc.ok => rec.got.toks = ByteToks(rec.inp, rfc.t))
+     /\ (rfc.ok => IF "npairs" \in DOMAIN rec THEN rec.npairs = NPairs(rfc.t) ELSE rec.got.toks = ByteToks(rec.inp, rfc.t))
   THEN TRUE
   ELSE PrintT(<<"REJECTED", "json", rec.id, ToJson([inp |-> rec.inp, rfc_accepts |-> rfc.ok, got |-> rec.got])>>)
 
